@@ -3,8 +3,10 @@
 run of tools/evalseed.sh (build, pinned suite, demo on clean/patched copy, every check on the patched copy)."""
 import json, os, re, shutil, subprocess, sys
 needs = json.load(open('/verif/seeded/needs.json')) if os.path.exists('/verif/seeded/needs.json') else {}
-for sid in sys.argv[1:]:
-    src = f'/tmp/seed/{sid}/SEED'
+for arg in sys.argv[1:]:
+    # NAME or NAME:SRCDIR ; the first three characters of NAME are the property id
+    sid, _, src = arg.partition(':')
+    src = src or f'/tmp/seed/{sid}/SEED'
     dst = f'/verif/seeded/{sid}'
     if os.path.isdir(src):
         os.makedirs(dst, exist_ok=True)
@@ -19,7 +21,7 @@ for sid in sys.argv[1:]:
     own = re.search(r'^PROPERTY-CHECK (C\d+) exit=(\d+)', out, re.M)
     summ = re.search(r'SUMMARY id=\S+ demo_clean=(\d+) demo_patched=(\d+)', out)
     meta = {
-        "property": sid,
+        "property": sid[:3],
         "origin": "written by an independent sub-agent that was given only the property text and a scratch worktree of /repo (nothing from /verif)",
         "needs_to_manifest": needs.get(sid, "see README.md"),
         "verified_by": "tools/evalseed.sh %s /verif/seeded/%s" % (sid, sid),
@@ -31,5 +33,6 @@ for sid in sys.argv[1:]:
         "checks_that_report_it": caught,
         "first_reports": [l[:400] for l in out.splitlines() if l.startswith(('REFUTED', 'UNDECIDED'))][:4],
     }
-    json.dump(meta, open(f'{dst}/meta.json', 'w'), indent=1, ensure_ascii=False)
+    meta["round"] = 2 if "-r2" in sid else 1
+    json.dump(meta, open(f"{dst}/meta.json", "w"), indent=1, ensure_ascii=False)
     print(sid, 'own=', meta['own_property_check_reports_it'], 'caught_by=', caught, 'demo', meta['demo_exit_on_clean_copy'], meta['demo_exit_on_patched_copy'], 'suite', meta['pinned_suite_same_as_baseline'])
